@@ -471,4 +471,71 @@ func runC06(c *Ctx) {
 	c.c06RangeObjects()
 	c.c06Duplicates()
 	c.c06Limits()
+	c.c06ColLimits()
+}
+
+// rejected column insertions, systematically: a cell within n columns of XFD in the first / a middle / the last
+// populated row of the edited sheet (or below all of them), sheets before and after the edited one whose formulas
+// refer to it, every sheet observed in full: a rejected InsertCols changes nothing anywhere
+func (c *Ctx) c06ColLimits() {
+	for _, farRow := range []int{1, 2, 4, 6} {
+		for k := 0; k <= 2; k++ {
+			for n := 1; n <= 3; n++ {
+				for _, at := range []string{"A", "B", "D"} {
+					desc := map[string]interface{}{"far_cell_row": farRow, "far_cell_columns_before_XFD": k, "InsertCols_at": at, "n": n}
+					c.guard("C06_no_panic", desc, func() {
+						f := excelize.NewFile()
+						defer f.Close()
+						f.NewSheet("Mid")
+						f.NewSheet("After")
+						for r := 1; r <= 4; r++ {
+							for col := 1; col <= 3; col++ {
+								cn, _ := excelize.CoordinatesToCellName(col, r)
+								f.SetCellValue("Mid", cn, 10*r+col)
+							}
+						}
+						f.SetCellFormula("Mid", "C2", "A2+B2")
+						f.SetCellFormula("Sheet1", "A1", "Mid!B1*2")
+						f.SetCellFormula("Sheet1", "B3", "SUM(Mid!A1:C3)")
+						f.SetCellFormula("After", "A1", "Mid!C4&\"x\"")
+						f.SetColWidth("Mid", "C", "C", 33)
+						f.MergeCell("Mid", "B3", "C3")
+						f.SetCellHyperLink("Mid", "B4", "https://example.com", "External")
+						far, _ := excelize.CoordinatesToCellName(excelize.MaxColumns-k, farRow)
+						f.SetCellValue("Mid", far, "far")
+						obs := func() string {
+							var sb strings.Builder
+							for _, sh := range []string{"Sheet1", "Mid", "After"} {
+								w, _ := observeWindow(f, sh, 6, 7) // (not GetCols: one decode per column up to XFD)
+								rows, _ := f.GetRows(sh)
+								sb.WriteString("[" + sh + "]" + w + fmt.Sprintf("|rows%q", rows))
+							}
+							wd, _ := f.GetColWidth("Mid", "C")
+							wd2, _ := f.GetColWidth("Mid", "D")
+							ok, link, _ := f.GetCellHyperLink("Mid", "B4")
+							ok2, _, _ := f.GetCellHyperLink("Mid", "C4")
+							fmt.Fprintf(&sb, "|w=%v,%v link=%v,%s,%v", wd, wd2, ok, link, ok2)
+							v, _ := f.GetCellValue("Mid", far)
+							return sb.String() + "|far=" + v + mergesString(f, "Mid")
+						}
+						before := obs()
+						err := f.InsertCols("Mid", at, n)
+						c.Count("col-limit", err != nil, fmt.Sprint(desc))
+						if (err != nil) != (n > k) {
+							c.Fail("oracle", "C06_reject_atomic", desc, fmt.Sprintf("InsertCols(Mid, %s, %d) with a cell in column XFD-%d: err = %v", at, n, k, err), "")
+							return
+						}
+						if err != nil {
+							if after := obs(); after != before {
+								c.Fail("oracle", "C06_reject_atomic", desc, "rejected InsertCols changed the workbook: "+firstDiff(before, after), "")
+							}
+						}
+					})
+					if c.Failed() {
+						return
+					}
+				}
+			}
+		}
+	}
 }
